@@ -33,8 +33,10 @@ type inflightOp struct {
 }
 
 // modelApply applies the effect of op to m as if it succeeded (invalid requests change nothing).
-// For MutateRows, upTo limits the number of entries applied (-1 = all).
-func modelApply(m *btModel, op btOp, now int64, upTo int) {
+// For MutateRows, upTo limits the number of entries applied (-1 = all). Where the model leaves
+// open whether a mutation list is applied or rejected (altErr: an empty delete range), rejectAlt
+// selects the "rejected" alternative; the caller tries both.
+func modelApply(m *btModel, op btOp, now int64, upTo int, rejectAlt bool) {
 	t := m.Tables[op.Table]
 	switch op.Kind {
 	case "CreateTable":
@@ -55,7 +57,7 @@ func modelApply(m *btModel, op btOp, now int64, upTo int) {
 	switch op.Kind {
 	case "MutateRow":
 		o := t.applyMutations(t.row(op.Key), op.Muts, now)
-		if o.err == nil && !o.either {
+		if o.err == nil && !o.either && !(o.altErr && rejectAlt) {
 			t.setRow(op.Key, o.row)
 		}
 	case "MutateRows":
@@ -64,7 +66,7 @@ func modelApply(m *btModel, op btOp, now int64, upTo int) {
 				break
 			}
 			o := t.applyMutations(t.row(e.Key), e.Muts, now)
-			if o.err == nil && !o.either {
+			if o.err == nil && !o.either && !(o.altErr && rejectAlt) {
 				t.setRow(e.Key, o.row)
 			}
 		}
@@ -171,16 +173,18 @@ func candidates(snapshot *btModel, infl []inflightOp) []*btModel {
 		var next []*btModel
 		for _, c := range cands {
 			next = append(next, c)
-			if io.op.Kind == "MutateRows" {
-				for k := 1; k <= len(io.op.Entries); k++ {
+			for _, rejectAlt := range []bool{false, true} {
+				if io.op.Kind == "MutateRows" {
+					for k := 1; k <= len(io.op.Entries); k++ {
+						a := c.clone()
+						modelApply(a, io.op, io.now, k, rejectAlt)
+						next = append(next, a)
+					}
+				} else {
 					a := c.clone()
-					modelApply(a, io.op, io.now, k)
+					modelApply(a, io.op, io.now, -1, rejectAlt)
 					next = append(next, a)
 				}
-			} else {
-				a := c.clone()
-				modelApply(a, io.op, io.now, -1)
-				next = append(next, a)
 			}
 		}
 		cands = next
